@@ -827,6 +827,22 @@ pub(crate) fn parse_month_day(source: &str) -> TemporalResult<IxdtfParseRecord> 
     }
 }
 
+/// Without the time designator, a time string must not also read as a month-day ("1214",
+/// "12-14") or a year-month ("202112", "2021-12"): such strings are not time strings.
+pub(crate) fn is_ambiguous_time_string(source: &str) -> bool {
+    let has_designator = source.starts_with(['T', 't']);
+    let reads_as_month_day = IxdtfParser::from_str(source)
+        .parse_month_day()
+        .is_ok_and(|r| {
+            r.date
+                .is_some_and(|d| (1..=12).contains(&d.month) && (1..=31).contains(&d.day))
+        });
+    let reads_as_year_month = IxdtfParser::from_str(source)
+        .parse_year_month()
+        .is_ok_and(|r| r.date.is_some_and(|d| (1..=12).contains(&d.month)));
+    !has_designator && (reads_as_month_day || reads_as_year_month)
+}
+
 #[inline]
 pub(crate) fn parse_time(source: &str) -> TemporalResult<TimeRecord> {
     let time_record = parse_ixdtf(source, ParseVariant::Time);
@@ -839,19 +855,7 @@ pub(crate) fn parse_time(source: &str) -> TemporalResult<TimeRecord> {
             }
             // Without the time designator, a time string must not also read as a month-day
             // ("1214") or a year-month ("202112"): such strings are ambiguous and rejected.
-            let has_designator = source.starts_with(['T', 't']);
-            let reads_as_month_day =
-                IxdtfParser::from_str(source)
-                    .parse_month_day()
-                    .is_ok_and(|r| {
-                        r.date.is_some_and(|d| {
-                            (1..=12).contains(&d.month) && (1..=31).contains(&d.day)
-                        })
-                    });
-            let reads_as_year_month = IxdtfParser::from_str(source)
-                .parse_year_month()
-                .is_ok_and(|r| r.date.is_some_and(|d| (1..=12).contains(&d.month)));
-            if !has_designator && (reads_as_month_day || reads_as_year_month) {
+            if is_ambiguous_time_string(source) {
                 return Err(TemporalError::range()
                     .with_message("Time string is ambiguous without a time designator."));
             }
